@@ -448,6 +448,54 @@ func run() string {
 		Main: "run()", Globals: []string{"tr", "acc", "inflight"}, Reset: "reset()",
 	},
 	{
+		// panicking frames of the specialised wrappers func(), func(int), func() int, func(int) int ...
+		// with plain "defer f()" and no closure in the body: such frames are eligible for the frame pool
+		Name: "plain-defer-specialisations",
+		Defs: probeCommon + `
+func reset() { tr = nil; acc = 0; inflight = false }
+func cleanup() { hd(1) }
+func cleanup2(x int) { hd(2); acc += x }
+func p0() { defer cleanup(); H(1); acc++; H(2) }
+func p1(x int) { defer cleanup(); H(3); acc += x; H(4) }
+func p2() int { defer cleanup(); H(5); return acc }
+func p3(x int) int { defer cleanup2(x); H(6); return acc + x }
+func p4(x, y int) { defer H(107); H(7); acc += x * y }
+func p5(s string) string { defer cleanup(); H(8); return s + "!" }
+func p6(x int) (int, int) { defer cleanup(); H(9); return x, acc }
+func nest() { defer cleanup(); H(10); p0(); H(11); p1(1); H(12) }
+func thrower() { defer cleanup(); H(13); inflight = true; panic("plain") }
+func guard() (r int) {
+	defer func() { if recover() != nil { inflight = false; r = -1 } }()
+	thrower()
+	return 1
+}
+func run() string {
+	p0()
+	p1(2)
+	a := p2()
+	b := p3(3)
+	p4(2, 5)
+	s := p5("x")
+	c, d := p6(4)
+	nest()
+	g := guard()
+	H(14)
+	return fmtSprint(a, b, s, c, d, g, acc)
+}
+`,
+		Main: "run()", Globals: []string{"tr", "acc", "inflight"}, Reset: "reset()",
+	},
+	{
+		// the same shapes called directly from the evaluated expression (depth 1)
+		Name: "plain-defer-toplevel-call",
+		Defs: probeCommon + `
+func reset() { tr = nil; acc = 0; inflight = false }
+func cleanup() { hd(1) }
+func probe() { defer cleanup(); H(1); acc++; H(2) }
+`,
+		Main: "probe()", Globals: []string{"tr", "acc", "inflight"}, Reset: "reset()",
+	},
+	{
 		Name: "toplevel-nodefer", // not StepOK: single-stepping these top-level statements does not terminate either (NOTES.md)
 		Defs: probeCommon + `
 func reset() { tr = nil; acc = 0; inflight = false }
